@@ -305,7 +305,7 @@ ReadClauses(cur, e) ==
   IN
   << <<p \o ".read.total", frag => e.out = "value">> >>
   \o ReadCommon(e)
-  \o Guarded(fmt = "json" /\ frag,
+  \o Guarded(fmt = "json" /\ frag /\ cur.pj.out # "none",
        << <<"C05.parsejson", ok /\ cur.pj.out = "value" /\ cur.pj.anom = <<>> /\ cur.pj.post = b>> >>)
   \o Guarded(ok /\ frag /\ cur.gen = 0 /\ WellFormedTree(b), PreserveClauses(p, fmt, cur.m0, b))
   \o Guarded(frag /\ cur.gen >= 1,
@@ -331,6 +331,34 @@ ReadRefClauses(cur, e) ==
                <<"C04.denote.ctcs", /\ Len(b.ctcs) = Len(ref.ctcs)
                                     /\ \A i \in DOMAIN b.ctcs : b.ctcs[i].ast = ref.ctcs[i].ast>> >>
        ELSE PreserveClauses(p, fmt, ref, b))
+
+\* The shipped FaMa / Betty corpus: the twelve numbers of the generator's .statistics file are
+\* independent ground truth; files small enough carry the full projection and TLC recounts them.
+BettyStats(m) ==
+  LET K(j) == KindOf(m.rels[j])
+      NRel(P(_)) == Cardinality({j \in DOMAIN m.rels : P(j)})
+      SumKids(P(_)) == SumSeq([j \in DOMAIN m.rels |-> IF P(j) THEN NKids(m.rels[j]) ELSE 0])
+      nch(f) == Len(ChildSeq(m, f))
+  IN  [nfeat |-> Len(m.feats),
+       mand |-> NRel(LAMBDA j : K(j) = "mandatory"), opt |-> NRel(LAMBDA j : K(j) = "optional"),
+       orrel |-> NRel(LAMBDA j : K(j) = "or"), altrel |-> NRel(LAMBDA j : K(j) = "alternative"),
+       orsub |-> SumKids(LAMBDA j : K(j) = "or"), altsub |-> SumKids(LAMBDA j : K(j) = "alternative"),
+       maxbf |-> IF m.rels = <<>> THEN 0 ELSE MaxOf({nch(f) : f \in Names(m)}),
+       maxset |-> IF \A j \in DOMAIN m.rels : ~IsGroupRel(m.rels[j]) THEN 0
+                  ELSE MaxOf({NKids(m.rels[j]) : j \in {j \in DOMAIN m.rels : IsGroupRel(m.rels[j])}}),
+       nctc |-> Len(m.ctcs),
+       req |-> Cardinality({i \in DOMAIN m.ctcs : m.ctcs[i].ast.op = "REQUIRES"}),
+       exc |-> Cardinality({i \in DOMAIN m.ctcs : m.ctcs[i].ast.op = "EXCLUDES"})]
+ReadCorpusClauses(cur, e) ==
+  << <<"C09.corpus.accepts", e.out = "value">> >>
+  \o Guarded(e.out = "value" /\ e.args.has_stats,
+       \* Betty reports 1 as the largest set relationship of a model that has none
+       << <<"C09.corpus.stats", LET s == e.args.stats  t == e.ret.summary
+                                IN  \/ t = s
+                                    \/ (t.maxset = 0 /\ s.maxset = 1 /\ [t EXCEPT !.maxset = 1] = s)>> >>)
+  \o Guarded(e.out = "value" /\ e.args.full,
+       ReadCommon(e)
+       \o << <<"C09.corpus.recount", e.anom = <<>> /\ WellFormedTree(e.post) => BettyStats(e.post) = e.ret.summary>> >>)
 
 ---------------------------------------------------------------------------
 (* Exports (C10, C11): e.ret.doc is the parsed abstract syntax *)
@@ -380,6 +408,7 @@ Clauses(cur, e) ==
     [] e.a = "Export"         -> ExportClauses(cur, e)
     [] e.a = "Read"           -> ReadClauses(cur, e)
     [] e.a = "ReadRef"        -> ReadRefClauses(cur, e)
+    [] e.a = "ReadCorpus"     -> ReadCorpusClauses(cur, e)
     [] e.a = "ReadBack"       -> << <<"C12.utf8.names." \o e.args.fmt,
                                       e.out = "value" => (e.anom = <<>> /\ Names(e.post) = Names(cur.model))>> >>
     [] e.a = "ParseJson"      -> << <<"C05.parsejson.total", InFrag("json", cur.m0) => e.out = "value">> >>
